@@ -48,6 +48,7 @@ RULE = ("valid frames of ReadProperty, WriteProperty, ReadPropertyMultiple, Subs
 
 DEV = 5          # device station
 INJ = 9          # injecting station
+INJ2 = 8         # a second station that only ever sends garbage
 
 
 @register_object_type(vendor_id=999)
@@ -161,28 +162,41 @@ def classify(octets):
     if ap["type"] != W.CONFIRMED:
         return {"class": "apdu-type-%d" % ap["type"], "apci": ap}
     if ap["seg"]:
-        return {"class": "segmented-request", "apci": ap}
+        return {"class": "segmented-request", "apci": ap, "invoke": ap["invoke"]}
     if np["snet"] is not None:
         return {"class": "well-framed-routed", "apci": ap, "invoke": ap["invoke"]}
     return {"class": "well-framed", "apci": ap, "invoke": ap["invoke"]}
 
 
-def run_batch(run, frames, label, wit_extra=None):
-    """frames: list of octet strings handed to the device in one deferred batch"""
+def run_batch(run, frames, label, wit_extra=None, followups=(), big_device=False):
+    """frames: list of octet strings (sent by station INJ) or (station, octets) pairs, handed to the device in one deferred
+    batch; followups: [(delay, station, octets)] injected afterwards"""
     CLOCK.reset()
     lan = FaultNet("lan", Plan())
     dev = Device(lan)
+    if big_device:
+        for k in range(2, 30):
+            dev.app.add_object(WAV(objectIdentifier=("analogValue", k), objectName="av%d" % k, presentValue=float(k), statusFlags=[0, 0, 0, 0]))
     inj = Node(Address(INJ), lan)           # its address exists on the LAN so that replies have somewhere to go
+    inj2 = Node(Address(INJ2), lan)
     CLOCK.settle()
     n0 = len(lan.frames)
+    srcs = [f[0] if isinstance(f, tuple) else INJ for f in frames]
+    frames = [f[1] if isinstance(f, tuple) else f for f in frames]
     classes = [classify(f) for f in frames]
-    wit = {"batch_class": label, "frames": [f[:60] for f in frames], "classes": [c["class"] for c in classes]}
+    for c, sst in zip(classes, srcs):
+        c["station"] = sst
+    wit = {"batch_class": label, "frames": [f[:60] for f in frames], "classes": [c["class"] for c in classes], "stations": srcs,
+           "followups": [(d, st, o[:30]) for d, st, o in followups]}
     if wit_extra:
         wit.update(wit_extra)
     # the UDP director hands each datagram to core.deferred(): same here, straight into the device's node
-    for f in frames:
-        core.deferred(dev.node.response, PDU(f, source=Address(INJ), destination=Address(DEV)))
+    for f, sst in zip(frames, srcs):
+        core.deferred(dev.node.response, PDU(f, source=Address(sst), destination=Address(DEV)))
     try:
+        for delay, sst, o in followups:
+            CLOCK.drive(duration=delay, max_steps=200000)
+            core.deferred(dev.node.response, PDU(o, source=Address(sst), destination=Address(DEV)))
         CLOCK.drive(duration=70.0, max_steps=200000)
     except StepBudgetExceeded as err:
         run.violation("device-does-not-quiesce", dict(wit, error=str(err)))
@@ -198,9 +212,18 @@ def run_batch(run, frames, label, wit_extra=None):
             continue
         d = decode_frame(rec)
         ap = d.get("apci")
-        if not ap or d["dst"] != str(INJ):
+        if not ap or d["dst"] not in (str(INJ), str(INJ2)):
             continue
         if ap["type"] in (W.SIMPLE_ACK, W.ERROR, W.REJECT, W.ABORT) or (ap["type"] == W.COMPLEX_ACK and (not ap["seg"] or ap["seq"] == 0)):
+            if d["dst"] == str(INJ2):
+                # only a well-framed request of the second station itself may be answered to it
+                if not any(cc.get("invoke") == ap["invoke"] and cc["station"] == INJ2 and (cc["class"].startswith("well-framed") or cc["class"] == "segmented-request") for cc in classes):
+                    run.violation("reply-sent-to-a-station-that-did-not-ask", dict(wit, invoke=ap["invoke"], type=ap["type"]))
+                    return False
+                continue
+            if ap["type"] == W.COMPLEX_ACK and ap["seg"] and len(replies.get(ap["invoke"], [])) >= 1 and not any(
+                    cc.get("invoke") == ap["invoke"] for cc in classes[1:] if cc["class"].startswith("well-framed")):
+                continue            # retransmission of the first segment of a segmented answer
             replies.setdefault(ap["invoke"], []).append(ap)
             run.seen("reply_kinds", {2: "simple-ack", 3: "complex-ack", 5: "error", 6: "reject", 7: "abort"}[ap["type"]])
             if ap["type"] == W.SIMPLE_ACK and ap["service"] == 17:
@@ -209,7 +232,7 @@ def run_batch(run, frames, label, wit_extra=None):
     dcc_acked = dcc_acked and getattr(dev.smap, "dccEnableDisable", "disable") != "enable"
     expected = {}
     for c in classes:
-        if c["class"] in ("well-framed", "well-framed-routed"):
+        if c["class"] in ("well-framed", "well-framed-routed") and c["station"] == INJ:
             expected[c["invoke"]] = expected.get(c["invoke"], 0) + 1
     run.count("well_framed_requests_injected", sum(expected.values()))
     run.count("frames_injected", len(frames))
@@ -218,6 +241,8 @@ def run_batch(run, frames, label, wit_extra=None):
         for inv, n in expected.items():
             got = len(replies.get(inv, []))
             run.count("requests_checked_for_exactly_one_reply", n)
+            if label == "segmented-answer-dialogue" and got >= 1:
+                continue            # what follows the first segment depends on the client's (scripted, possibly broken) follow-ups
             if got != n:
                 which = [i for i, c in enumerate(classes) if c.get("invoke") == inv]
                 ap = classes[which[0]]["apci"]
@@ -314,6 +339,41 @@ def main():
             run.case(("mut", label, k, run.seed if not thorough else 0), sample={"base": label, "mutants": [m[:40] for m in chunk[:3]]},
                      sample_key=("mut", label))
             run_batch(run, batch, "mutants/" + label)
+    # 2b. garbage from a second station that claims to forward for a remote network, then a valid routed request through
+    #     the genuine router: the answer has to go back through the station that forwarded the request
+    for i in range((400 if thorough else 60) // (run.shard[1] if thorough else 1)):
+        idx += 1
+        snet = rng.choice([7, 7, 300])
+        garbage = []
+        for _ in range(rng.randrange(1, 4)):
+            apdu = bytes(rng.getrandbits(8) for _ in range(rng.randrange(0, 12))) if rng.random() < 0.6 else rng.choice(valid)[1][2:]
+            garbage.append((INJ2, W.npci_build({"snet": snet, "sadr": bytes([rng.choice([5, 6])]), "der": True, "payload": apdu})))
+        body = R.tlv_encode([ctx(0, objid(2, 1)), ctx(1, b"\x55")])
+        routed = W.npci_build({"snet": 7, "sadr": b"\x05", "der": True,
+                               "payload": W.apci_build({"type": W.CONFIRMED, "max_segs": 0, "max_resp": 5, "invoke": 160, "service": 12, "payload": body})})
+        order = garbage + [(INJ, routed)] if rng.random() < 0.7 else [(INJ, routed)] + garbage + [(INJ, routed.replace(b"\xa0\x0c", b"\xa1\x0c", 1))]
+        run.case(("routed", run.shard[0], i), sample={"routed_request_after_foreign_garbage": [o[:20] for st, o in order[:3]]}, sample_key=("routed", i < 1))
+        run_batch(run, order, "routed-request-after-foreign-garbage")
+    # 2c. dialogues on a segmented answer: the device has started a segmented response, the next frame from the client is
+    #     a (possibly corrupted) segment-ack, an abort, the request again, garbage - then silence
+    big = confirmed(170, 14, [ctx(0, objid(8, DEV)), (R.OPEN, 1, 0, b""), ctx(0, b"\x4c"), (R.CLOSE, 1, 0, b"")], max_resp=0, sa=True)
+    for i in range((600 if thorough else 80) // (run.shard[1] if thorough else 1)):
+        idx += 1
+        fol = []
+        for _ in range(rng.randrange(1, 4)):
+            r = rng.random()
+            if r < 0.55:
+                o = W.npci_build({"payload": W.apci_build({"type": W.SEGMENT_ACK, "nak": rng.random() < 0.3, "srv": rng.random() < 0.1, "invoke": rng.choice([170, 170, 170, 171]),
+                                                           "seq": rng.choice([0, 0, 1, 2, 9, 200, 255]), "win": rng.choice([1, 2, 4, 0, 127, 255])})})
+            elif r < 0.7:
+                o = W.npci_build({"payload": W.apci_build({"type": W.ABORT, "srv": rng.random() < 0.3, "invoke": 170, "reason": 0})})
+            elif r < 0.85:
+                o = big
+            else:
+                o = bytes(rng.getrandbits(8) for _ in range(rng.randrange(0, 12)))
+            fol.append((rng.choice([0.0, 0.1, 1.0, 2.5]), INJ, o))
+        run.case(("segdialogue", run.shard[0], i), sample={"segmented_answer_dialogue": [(d, o[:12]) for d, st, o in fol]}, sample_key=("segd", i < 1))
+        run_batch(run, [big], "segmented-answer-dialogue", followups=fol, big_device=True)
     # 3. random octets at three layers
     nrand = (3000 if thorough else 500) // (run.shard[1] if thorough else 1)
     for i in range(nrand):
